@@ -209,7 +209,7 @@ Definition edge_low (dmin bsize : float) (i : Z) : float :=
   PrimFloat.add dmin (PrimFloat.mul (float_of_Z i) bsize).
 Definition edges (dmin bsize : float) (nhist : Z) : list (float * float * float) :=
   map (fun i => let lo := edge_low dmin bsize i in
-                (lo, PrimFloat.add lo bsize, PrimFloat.add lo (PrimFloat.mul 0.5%float bsize)))
+                (lo, PrimFloat.add lo bsize, PrimFloat.add lo (PrimFloat.mul 0x1p-1%float bsize)))
       (zseq 0 (Z.to_nat nhist)).
 
 (* ------------------------------------------------------------------ binsize / nbin entry *)
@@ -299,3 +299,65 @@ Definition binner_num (patched : bool) (c : cols) (lo hi : option float) (k : Z)
       let '(hist, rev, low, high) := hist_by_num (c_x c) wsort k mergelast in
       Ok (mkNout hist rev low high (calc_rows patched c (Z.of_nat (length hist)) rev))
   end.
+
+(* ------------------------------------------------------------------ source reading (tie) *)
+(* What each key of the result dictionary is assigned in the two branches of the statistics loop,
+   as a table; harness/props/c14_translate.py reads the SAME tables out of esutil/stat/util.py on
+   every run (python ast, fail-closed) and Exec.src_tables_agree compares them.
+   Proofs.tables_are_the_model shows that the model's rows are these tables, interpreted. *)
+Inductive kind :=
+| KDatum        (* the single member's value:  self.x[w[0]]  or a copy of it *)
+| KZero         (* 0 *)
+| KWeight       (* the single member's weight: self.weights[w[0]] *)
+| KInvSqrtW     (* 1.0 / np.sqrt(self.weights[w[0]]) *)
+| KDatumTimesW  (* self.x[w[0]] * self.weights[w[0]]   (as found; violates the statement) *)
+| KMean         (* v[w].mean() *)
+| KStd          (* v[w].std() *)
+| KErr          (* std / np.sqrt(w.size) *)
+| KMedian       (* np.median(v[w]) *)
+| KWSum         (* self.weights[w].sum() *)
+| KWMean | KWErr | KWStd   (* wm, we, ws = wmom(v[w], self.weights[w], sdev=True) *)
+| KWErr2.                  (* j1, we2 = wmom(v[w], self.weights[w], calcerr=True) *)
+
+Definition kind_code (k : kind) : Z :=
+  match k with
+  | KDatum => 0 | KZero => 1 | KWeight => 2 | KInvSqrtW => 3 | KDatumTimesW => 4 | KMean => 5 | KStd => 6
+  | KErr => 7 | KMedian => 8 | KWSum => 9 | KWMean => 10 | KWErr => 11 | KWStd => 12 | KWErr2 => 13
+  end.
+
+(* keys: mean std err median | whist | wmean wstd werr werr2 *)
+Definition single_u_table : list kind := [KDatum; KZero; KDatum; KDatum].
+Definition single_whist : kind := KWeight.
+Definition single_w_table : list kind := [KDatum; KZero; KInvSqrtW; KZero].
+Definition many_u_table : list kind := [KMean; KStd; KErr; KMedian].
+Definition many_whist : kind := KWSum.
+Definition many_w_table : list kind := [KWMean; KWStd; KWErr; KWErr2].
+
+Definition interp_single (a wa : Q) (k : kind) : tgt :=
+  match k with
+  | KDatum => TExact a
+  | KZero => TExact 0
+  | KWeight => TExact wa
+  | KInvSqrtW => TSqrt (1 / wa) 0
+  | KDatumTimesW => TLin (a * wa) (Qabs (a * wa))
+  | _ => TAny
+  end.
+
+Definition interp_many (v w : list Q) (k : kind) : tgt :=
+  match k with
+  | KMean => TLin (mean_q v) (qabsmean v)
+  | KStd => TSqrt (var_q v) (qabsmean v)
+  | KErr => TSqrt (var_q v / qn v) (qabsmean v)
+  | KMedian => TLin (median_q v) (qabsmean v)
+  | KWSum => TLin (W.qsum w) (W.qsum (map Qabs w))
+  | KWMean => TLin (W.m_mean (W.wmom1 v w None false true)) (wabsmean v w)
+  | KWStd => TSqrt (match W.m_var (W.wmom1 v w None false true) with Some s => s | None => 0 end) (wabsmean v w)
+  | KWErr => TSqrt (W.m_err2 (W.wmom1 v w None false true)) 0
+  | KWErr2 => TSqrt (W.m_err2 (W.wmom1 v w None true false)) (wabsmean v w)
+  | _ => TAny
+  end.
+
+(* constants of calc_stats: the sentinel of empty bins (np.zeros(nhist) - 9999.0), whist[:] = 0,
+   center = low + 0.5 * binsize *)
+Definition center_factor : float := 0.5%float.
+Definition whist_empty : Q := 0%Q.
